@@ -253,7 +253,9 @@ func startServer(filePath string, port int, forceInterpreter bool) (*http.Server
 			path := wsRoute.Path
 			// Convert :param to {param} for Go's http.ServeMux pattern matching
 			muxPattern := server.ConvertPatternToMuxFormat(path)
-			mux.HandleFunc(muxPattern, wsServer.HandleWebSocketWithPattern(path))
+			if err := mountOnMux(mux, muxPattern, wsServer.HandleWebSocketWithPattern(path)); err != nil {
+				return nil, fmt.Errorf("WebSocket route %s: %w", path, err)
+			}
 			printInfo(fmt.Sprintf("WebSocket endpoint: ws://localhost:%d%s", port, path))
 		}
 	}
@@ -291,6 +293,20 @@ func startServer(filePath string, port int, forceInterpreter bool) (*http.Server
 	return srv, nil
 }
 
+// mountOnMux registers a handler on the mux. http.ServeMux panics when a pattern
+// is malformed or claimed twice (two @ ws routes on one path, a static route
+// over a WebSocket path); for the file being loaded that is a load error like
+// any other, not a reason to bring the process down.
+func mountOnMux(mux *http.ServeMux, pattern string, handler http.Handler) (err error) {
+	defer func() {
+		if r := recover(); r != nil {
+			err = fmt.Errorf("cannot mount %q: %v", pattern, r)
+		}
+	}()
+	mux.Handle(pattern, handler)
+	return nil
+}
+
 // registerStaticRoutes registers any @ static directives from the module on the mux.
 // The rootDir in each StaticRoute is resolved relative to the source file's directory.
 func registerStaticRoutes(mux *http.ServeMux, module *ast.Module, sourceFile string, port int) error {
@@ -318,7 +334,9 @@ func registerStaticRoutes(mux *http.ServeMux, module *ast.Module, sourceFile str
 		if pattern[len(pattern)-1] != '/' {
 			pattern += "/"
 		}
-		mux.Handle(pattern, staticServer)
+		if err := mountOnMux(mux, pattern, staticServer); err != nil {
+			return fmt.Errorf("static route %s: %w", sr.Path, err)
+		}
 		printInfo(fmt.Sprintf("Static files: http://localhost:%d%s -> %s", port, sr.Path, rootDir))
 	}
 
